@@ -36,7 +36,9 @@ type EnvNode struct {
 	c    *engine.Ctx
 }
 
-func newEnvNode(ci bool, c *engine.Ctx) *EnvNode { return &EnvNode{ci: ci, m: map[string]string{}, c: c} }
+func newEnvNode(ci bool, c *engine.Ctx) *EnvNode {
+	return &EnvNode{ci: ci, m: map[string]string{}, c: c}
+}
 
 func (e *EnvNode) norm(n string) string {
 	if e.ci {
